@@ -79,6 +79,7 @@ def run(ctx):
                 # ---- oracle on the complex coefficients
                 check_physics(ctx, fn, m, a, impl, kw)
         check_optional_angles(ctx, m, kw, model)
+        check_material_reuse(ctx, m, model)
         # helpers: all triples, both units
         for kind, mi, mo in (("fluid_solid", "L", "L"), ("fluid_solid", "L", "T"), ("solid_fluid", "L", "L"), ("solid_fluid", "T", "L")):
             c_inc = m["cF"] if kind == "fluid_solid" else (m["cL"] if mi == "L" else m["cT"])
@@ -282,6 +283,45 @@ def check_optional_angles(ctx, m, kw, model):
                             ctx.violate(f"{name} with {list(sub)} supplied (Snell angles) differs from the call that refracts by itself (call {rep + 1})", cj,
                                         {"kind": "optional_angles", "fn": name})
                             break
+
+
+def check_material_reuse(ctx, m, model):
+    """a temperature sweep: the same Material objects are used, their velocities re-assigned between calls (they are plain
+    attributes).  Every helper answers for the materials as they are *now*: same value as with freshly built materials."""
+    import arim
+
+    rng = ctx.rng
+    fluid, solid = materials(m)
+    combos = [("transmission", "fluid_solid", fluid, solid, "L", "T"), ("transmission", "solid_fluid", solid, fluid, "T", "L"), ("transmission", "fluid_solid", fluid, solid, "L", "L"),
+              ("reflection", "solid_fluid", solid, fluid, "L", "T"), ("reflection", "solid_fluid", solid, fluid, "T", "L")]
+    a = np.asarray(float(rng.uniform(0.02, 0.25)))
+
+    def call(what, kind, m_inc, m_oth, mi, mo, unit):
+        fn = model.transmission_at_interface if what == "transmission" else model.reflection_at_interface
+        with np.errstate(all="ignore"):
+            return complex(fn(arim.InterfaceKind[kind], m_inc, m_oth, arim.Mode[mi], arim.Mode[mo], a, unit=unit))
+
+    for step in range(3):
+        for what, kind, m_inc, m_oth, mi, mo in combos:
+            for unit in ("displacement", "stress"):
+                got = call(what, kind, m_inc, m_oth, mi, mo, unit)
+                f2 = arim.Material(fluid.longitudinal_vel, density=fluid.density, state_of_matter="liquid")
+                s2 = arim.Material(solid.longitudinal_vel, solid.transverse_vel, density=solid.density, state_of_matter="solid")
+                want = call(what, kind, f2 if m_inc is fluid else s2, s2 if m_oth is solid else f2, mi, mo, unit)
+                ctx.count("material_reuse")
+                if not rel_close(got, want, 1e-12):
+                    ctx.violate(f"{what}_at_interface({kind}, {mi}->{mo}, unit={unit}) on Material objects whose velocities were re-assigned {step} time(s) gives {got}; "
+                                f"freshly built materials with the same properties give {want}",
+                                {"op": "material_reuse", "what": what, "kind": kind, "modes": [mi, mo], "unit": unit, "step": step, "media": m}, {"kind": "material_reuse"})
+                    return
+        # next temperature: same objects, other velocities / density
+        fluid.longitudinal_vel *= 1.03
+        solid.longitudinal_vel *= 0.985
+        solid.transverse_vel *= 0.97
+        solid.density *= 1.002
+    for mat_, mode_, attr in ((solid, "L", "longitudinal_vel"), (solid, "T", "transverse_vel"), (fluid, "L", "longitudinal_vel")):
+        if mat_.velocity(mode_) != getattr(mat_, attr) or mat_.velocity(arim.Mode[mode_]) != getattr(mat_, attr):
+            ctx.violate(f"Material.velocity({mode_!r}) is not the material's current {attr}", {"op": "material_velocity", "mode": mode_}, {"kind": "material_reuse"})
 
 
 def search(ctx):
